@@ -393,7 +393,11 @@ func constructEd25519Key(data []byte) (types.SigningPublicKey, error) {
 	}
 
 	// Create Ed25519PublicKey from the bytes using safe constructor
-	ed25519_key, err := ed25519.NewEd25519PublicKey(data)
+	// NewEd25519PublicKey wraps the slice it is given; copy so that the key does not
+	// alias the caller's buffer (the other key types are copied into arrays as well).
+	keyData := make([]byte, len(data))
+	copy(keyData, data)
+	ed25519_key, err := ed25519.NewEd25519PublicKey(keyData)
 	if err != nil {
 		return nil, oops.Wrapf(err, "failed to construct Ed25519 public key")
 	}
@@ -412,7 +416,9 @@ func constructEd25519PHKey(data []byte) (types.SigningPublicKey, error) {
 	}
 
 	// Create Ed25519PublicKey from the bytes using safe constructor
-	ed25519ph_key, err := ed25519.NewEd25519PublicKey(data)
+	keyData := make([]byte, len(data))
+	copy(keyData, data)
+	ed25519ph_key, err := ed25519.NewEd25519PublicKey(keyData)
 	if err != nil {
 		return nil, oops.Wrapf(err, "failed to construct Ed25519ph public key")
 	}
